@@ -1,19 +1,29 @@
 #!/bin/bash
-# Development helper (not a registered check): apply each behaviour-preserving edit in
-# scripts/benign/*.diff to a scratch worktree of /repo and require every check to stay silent.
+# Development helper (not a registered check): behaviour-preserving edits must leave every
+# check silent. Applies each patch under /verif/benign/*/ (hand-made ones in benign/hand,
+# the rest written by independent sub-agents acting as maintainers) to its own scratch
+# worktree of /repo and runs the checks there.
+# usage: benign.sh [patch-glob] [props]     e.g.  benign.sh 'C03r/r*' C03,C05
 set -u
 export GOFLAGS=-mod=mod GOPROXY=off GOSUMDB=off GOTOOLCHAIN=local
 cd "$(dirname "$0")/.."
+glob=${1:-'*/*'}; props=${2:-all}; par=${BENIGN_PAR:-6}
 [ -x bin/liskcheck ] || scripts/check.sh C04 quick >/dev/null
-rc=0
-for d in scripts/benign/*.diff; do
+out=$(mktemp -d /tmp/liskcheck-benign-out.XXXXXX)
+one() {
+  d=$1; name=$(echo "$d" | sed 's#benign/##; s#/#.#; s#\.diff$##')
   wt=$(mktemp -d /tmp/liskcheck-benign.XXXXXX)
-  git -C /repo worktree add -q --detach "$wt" HEAD || { echo "cannot create worktree"; exit 2; }
-  if ! git -C "$wt" apply "$PWD/$d"; then echo "SKIP $d (does not apply)"; git -C /repo worktree remove --force "$wt"; continue; fi
+  git -C /repo worktree add -q --detach "$wt" HEAD || { echo "$name: cannot create worktree"; return; }
+  if ! git -C "$wt" apply "$PWD/$d" 2>/dev/null; then echo "$name: SKIP (does not apply to the current tree)"; git -C /repo worktree remove --force "$wt"; return; fi
+  if ! (cd "$wt" && go build ./... >/dev/null 2>&1); then echo "$name: SKIP (does not build)"; git -C /repo worktree remove --force "$wt"; return; fi
   ev=$(mktemp -d /tmp/liskcheck-benign-ev.XXXXXX); mkdir -p "$ev/evidence"; cp known_findings.json "$ev/"
-  out=$(bin/liskcheck -repo "$wt" -verif "$ev" -prop "${1:-all}" 2>&1)
-  if echo "$out" | grep -qE "^VIOLATION|BROKEN|undecided"; then echo "FALSE ALARM on $d"; echo "$out" | grep -E "FAIL|VIOLATION" | head; rc=1; else echo "silent on $d"; fi
+  bin/liskcheck -repo "$wt" -verif "$ev" -prop "$props" > "$out/$name.log" 2>&1
+  v=$(grep -E "^VIOLATION|BROKEN" "$out/$name.log" | sed 's/ replay=.*//; s/VIOLATION property=//; s/: .*//' | tr '\n' ' ')
+  if [ -n "$v" ]; then echo "$name: FALSE ALARM $v"; else echo "$name: silent"; fi
   git -C /repo worktree remove --force "$wt"; rm -rf "$ev"
-done
+}
+export -f one; export out props
+ls benign/$glob.diff | xargs -P "$par" -I{} bash -c 'one {}' | sort | tee "$out/SUMMARY.txt"
 git -C /repo worktree prune
-exit $rc
+echo "logs: $out"
+! grep -q "FALSE ALARM" "$out/SUMMARY.txt"
